@@ -146,6 +146,7 @@ class Run:
             src = open(os.path.join(common.LEAN, "PatchModel", "Props", m + ".lean")).read()
             # fully qualified names: follow `namespace X` / `end X` (nested namespaces hold the non-vacuity examples)
             stack = []
+            src = re.sub(r"/-.*?-/", lambda m_: "\n" * m_.group(0).count("\n"), src, flags=re.S)   # (comments may have lines starting with 'theorem')
             for line in src.splitlines():
                 m = re.match(r"^namespace\s+(\S+)", line)
                 if m:
